@@ -336,7 +336,7 @@ def gen_program(rng, nstmts=12, max_q=5, measure_p=0.0, if_p=0.0, reset_p=0.0, g
     def gate_def(gname):
         nr = rng.randint(1, 3); npar = rng.randint(0, 3)
         regs = ["a", "b", "cc"][:nr]
-        params = rng.sample(["theta", "phi", "lam", "pi"], npar) if rng.random() < 0.2 else ["theta", "phi", "lam"][:npar]
+        params = rng.sample(["theta", "phi", "lam", "pi", "inf", "nan", "infinity"], npar) if rng.random() < 0.25 else ["theta", "phi", "lam"][:npar]
         body = []
         formal_qs = [("r", x) for x in regs]
         sub = Layout(); sub.gates = [g for g in lay.gates if g[0] != gname]
